@@ -1616,14 +1616,15 @@ def sec_extras(ctx, rng, case):
         ctx.distinct(("store", repr(sorted(log.items()))), nontrivial=True)
 
 
-# (name, function, quick cases, thorough cases, time weight).  One of 14 quick shards needs ~18 s unloaded.
+# (name, function, quick cases, thorough cases, time weight).  One of 14 quick shards needs ~10 s of workload on
+# an idle machine (measured 18 s for twice these counts), which leaves room for a machine loaded 4x.
 SECTIONS = [
-    ("views", sec_views, 16000, 300000, 6.0),
-    ("combine", sec_combine, 8000, 150000, 2.0),
-    ("json", sec_json, 8000, 150000, 2.0),
-    ("digits", sec_digits, 20000, 400000, 1.0),
-    ("samplers", sec_samplers, 10000, 200000, 2.0),
-    ("real_samplers", sec_real_samplers, 5000, 100000, 2.5),
+    ("views", sec_views, 5000, 300000, 6.0),
+    ("combine", sec_combine, 3000, 150000, 2.0),
+    ("json", sec_json, 3000, 150000, 2.0),
+    ("digits", sec_digits, 12000, 400000, 1.0),
+    ("samplers", sec_samplers, 6000, 200000, 2.0),
+    ("real_samplers", sec_real_samplers, 3000, 100000, 2.5),
     ("zeros_rejections", sec_zeros_rejections, 28, 64, 0.1),
-    ("extras", sec_extras, 3000, 40000, 0.5),
+    ("extras", sec_extras, 2000, 40000, 0.5),
 ]
